@@ -216,8 +216,12 @@ pub fn burst(seed: u64, idx: u64) -> Scenario {
 /// the disk fails once during a history of ordinary static-file requests: a file that ends before its
 /// size says (sticky: truncated for good), an I/O error on read, an error at open / stat / seek
 pub fn disk_faults(seed: u64, idx: u64) -> Scenario {
-    let mut rng = rng_for(seed, "C06", "disk_faults", idx);
-    let mut sc = Scenario::base("C06", "disk_faults", idx);
+    disk_faults_for("C06", seed, idx)
+}
+
+pub fn disk_faults_for(prop: &'static str, seed: u64, idx: u64) -> Scenario {
+    let mut rng = rng_for(seed, prop, "disk_faults", idx);
+    let mut sc = Scenario::base(prop, "disk_faults", idx);
     sc.engine = Engine::System;
     sc.sched = pick_sched(&mut rng);
     sc.workers = rng.range(1, 3);
@@ -258,6 +262,24 @@ pub fn disk_faults(seed: u64, idx: u64) -> Scenario {
     // (an interrupted call is transient by nature: never sticky)
     let sticky = (kind == "eof" || kind == "EIO") && rng.chance(1, 2);
     sc.disk_fault = Some(DiskFault { op: op.into(), nth: rng.range(1, 40) as u32, kind: kind.into(), sticky });
+    sc.probe = if prop == "C06" { Probe::Capacity { request: probe_request().into() } } else { Probe::FollowUp { request: probe_request().into() } };
+    sc
+}
+
+/// more than ten thousand connections on one node: counters that trip at a round number
+pub fn ten_thousand(seed: u64, idx: u64) -> Scenario {
+    let mut rng = rng_for(seed, "C06", "ten_thousand_connections", idx);
+    let mut sc = Scenario::base("C06", "ten_thousand_connections", idx);
+    sc.engine = Engine::System;
+    sc.sched = Sched { kind: SchedKind::Random, seed: rng.next(), depth: 0 };
+    sc.workers = rng.range(1, 3);
+    sc.request_size = 4096;
+    sc.tree = small_tree(0xC06);
+    let n = *rng.pick(&[10_050usize, 10_300, 12_000]);
+    let kinds: [Vec<u8>; 4] = [get("/one.txt"), b"BREW / HTTP/1.1\r\n\r\n".to_vec(), get("/missing.txt"), req("HEAD", "/one.txt", &[], b"")];
+    for i in 0..n {
+        sc.conns.push(Conn::simple(i, (i / 16) as u32, kinds[i % 4].clone(), "many"));
+    }
     sc.probe = Probe::Capacity { request: probe_request().into() };
     sc
 }
@@ -301,6 +323,7 @@ pub fn large_aborted(seed: u64, idx: u64) -> Scenario {
 pub fn plan(tier: Tier, seed: u64) -> Vec<Campaign> {
     vec![
         Campaign { name: "disk_faults", budget: match tier { Tier::Quick => Budget::Count(3000), Tier::Thorough => Budget::Time(1) }, exhaustive: false, gen: Box::new(move |i| disk_faults(seed, i)) },
+        Campaign { name: "ten_thousand_connections", budget: Budget::Count(match tier { Tier::Quick => 2, Tier::Thorough => 12 }), exhaustive: false, gen: Box::new(move |i| ten_thousand(seed, i)) },
         Campaign { name: "large_aborted_downloads", budget: Budget::Count(match tier { Tier::Quick => 24, Tier::Thorough => 200 }), exhaustive: false, gen: Box::new(move |i| large_aborted(seed, i)) },
         Campaign { name: "single_fault_enumeration", budget: Budget::Count(enumeration_size()), exhaustive: true, gen: Box::new(move |i| enumerated(seed, i)) },
         Campaign { name: "burst", budget: match tier { Tier::Quick => Budget::Count(24), Tier::Thorough => Budget::Time(1) }, exhaustive: false, gen: Box::new(move |i| burst(seed, i)) },
